@@ -14,6 +14,7 @@ REPO = os.environ.get("PY_ECC_REPO", "/repo")
 VENV_PY = os.environ.get("PY_ECC_PYTHON", "/venv/bin/python")
 BASELINE = os.path.join(HERE, "baseline_obligations.json")
 KNOWN = os.path.join(HERE, "known_findings.json")
+REPLAY_DIR = os.environ.get("VERIF_REPLAY_DIR") or os.path.join(HERE, "replays")
 
 
 def _load(path, default):
@@ -267,8 +268,9 @@ def run_property(pid, tier, seed, jobs=None, write_baseline=False, only_units=No
         ),
         assumptions=assumptions,
     )
-    os.makedirs(os.path.join(HERE, "evidence"), exist_ok=True)
-    with open(os.path.join(HERE, "evidence", f"{pid}.json"), "w") as f:
+    evdir = os.environ.get("VERIF_EVIDENCE_DIR") or os.path.join(HERE, "evidence")     # overridden by seed sweeps / self-tests
+    os.makedirs(evdir, exist_ok=True)
+    with open(os.path.join(evdir, f"{pid}.json"), "w") as f:
         json.dump(ev, f, indent=1, sort_keys=True, default=str)
 
     # ---- verdict --------------------------------------------------------------------------
@@ -318,11 +320,11 @@ def _concretise(pid, o, results, seed):
 
 
 def _write_replay(pid, o, conc):
-    os.makedirs(os.path.join(HERE, "replays"), exist_ok=True)
+    os.makedirs(REPLAY_DIR, exist_ok=True)
     fn = o["name"].split("/")[0]
     h = hashlib.sha1((o["name"]).encode()).hexdigest()[:10]
     has_input = bool(conc and conc.get("found"))
-    rp = os.path.join(HERE, "replays", f"{pid}-{h}.json")
+    rp = os.path.join(REPLAY_DIR, f"{pid}-{h}.json")
     doc = dict(property=pid, obligation=o["name"], function=fn, path=o["path"], status=o["status"],
                backend=o["backend"], solver_output=o["detail"], solver_witness=o.get("witness"),
                concrete=conc, has_failing_input=has_input)
